@@ -72,6 +72,9 @@ def run_controls():
     o = Obligations('CTL')
     sweeps.dtype_inherit(ctx, o, ['ctl2.'])
     expect('dtype-counter', o, 'DTYPE', 'buffer `out` typed like `labels`')
+    expect('dtype-copy-quotient', o, 'DTYPE', 'buffer `out` typed like `x`')
+    if any(x.verdict == VIOLATED and x.func == 'ctl2.clip_copy' for x in o.items):
+        bad.append('DTYPE fired on a copy that only receives constants')
     if any(x.verdict == VIOLATED and x.func == 'ctl2.values_like_labels' for x in o.items):
         bad.append('DTYPE fired on a buffer that only receives elements of its source')
     n += 1
